@@ -99,9 +99,11 @@ class LabChainObj(AutoParameterObject, ChainObject):
     def __init__(self, a):
         self.a = a
         self.inited = False
+        self.saw_tasks = False
 
     def init_chain(self, chain):
         self.inited = True
+        self.saw_tasks = len(chain.tasks) > 0       # a chain object may look at the chain's tasks: they exist when it is initialised
 
 
 class LabObjPlain(ParameterObject):
@@ -185,7 +187,7 @@ def pcanon(v):
     if isinstance(v, LabObjSet):
         return ['obj', 'LabObjSet', {'tags': sorted(v.tags)}]
     if isinstance(v, LabChainObj):
-        return ['obj', 'LabChainObj', {'a': pcanon(v.a), 'inited': bool(v.inited)}]
+        return ['obj', 'LabChainObj', {'a': pcanon(v.a), 'inited': bool(v.inited), 'saw_tasks': bool(v.saw_tasks)}]
     if isinstance(v, list):
         return ['l', [pcanon(x) for x in v]]
     if isinstance(v, dict):
@@ -209,7 +211,7 @@ def received_canon(v):
     if isinstance(v, LabObjSet):
         return ['obj', 'LabObjSet', {'tags': sorted(v.tags)}]
     if isinstance(v, LabChainObj):
-        return ['obj', 'LabChainObj', {'a': received_canon(v.a), 'inited': bool(v.inited)}]
+        return ['obj', 'LabChainObj', {'a': received_canon(v.a), 'inited': bool(v.inited), 'saw_tasks': bool(v.saw_tasks)}]
     if isinstance(v, list):
         return ['l', [received_canon(x) for x in v]]
     if isinstance(v, dict):
